@@ -91,6 +91,36 @@ type Deviation struct {
 	role      string // structural description of the position
 }
 
+// sliceKinds: the representative deviations (null + one wrong kind per node
+// kind) that the quick tier combines with a deviation in a sibling field.
+var sliceKinds = map[string]bool{"null": true, "missing-typename": true, "number-for-string": true, "string-for-number": true,
+	"string-for-boolean": true, "boolean-for-id": true, "invalid-enum-value": true, "scalar-for-array": true, "scalar-for-object": true}
+
+// fieldDepth is the index of the key of the field under test (and of its
+// siblings k, z) in a payload path.
+func (s Shape) fieldDepth() int {
+	switch s.Ctx {
+	case "root":
+		return 0
+	case "nullobj", "nnobj":
+		return 1
+	}
+	return 2
+}
+
+// underField: the deviation is at or below the field under test.
+func (d Deviation) underField(s Shape) bool {
+	fd := s.fieldDepth()
+	return len(d.Path) > fd && d.Path[fd] == "f"
+}
+
+// atSibling: the deviation replaces a sibling (k rendered before, z rendered
+// after the field under test) in some instance of the enclosing object.
+func (d Deviation) atSibling(s Shape) bool {
+	fd := s.fieldDepth()
+	return len(d.Path) == fd+1 && (d.Path[fd] == "k" || d.Path[fd] == "z")
+}
+
 func (d Deviation) String() string {
 	v := "absent"
 	if !d.Absent {
